@@ -638,6 +638,37 @@ func initBig() {
 		}
 		return e.setBig(a[0], e.b.IntBin(OIntMul, x, y))
 	})
+	// division: SMT-LIB div / mod on Int are Euclidean (0 <= remainder), which is big.Int.Div / Mod; Quo / Rem truncate
+	// toward zero: sign(x)*sign(y)*(|x| div |y|)
+	divZero := func(e *Engine, y *Term) {
+		e.x.checkPanic(e.b.Eq(y, e.b.IntI(0)), nil, nil, "division by zero")
+	}
+	quo := func(e *Engine, x, y *Term) *Term {
+		b := e.b
+		q := b.IntBin(OIntDiv, e.intAbs(x), e.intAbs(y))
+		neg := b.Not(b.Eq(b.IntBin(OIntLT, x, b.IntI(0)), b.IntBin(OIntLT, y, b.IntI(0))))
+		return b.Ite(neg, b.IntNeg(q), q)
+	}
+	reg("Div", func(e *Engine, f *frame, a []Value) Value {
+		x, y := e.bigOf(a[1]), e.bigOf(a[2])
+		divZero(e, y)
+		return e.setBig(a[0], e.b.IntBin(OIntDiv, x, y))
+	})
+	reg("Mod", func(e *Engine, f *frame, a []Value) Value {
+		x, y := e.bigOf(a[1]), e.bigOf(a[2])
+		divZero(e, y)
+		return e.setBig(a[0], e.b.IntBin(OIntMod, x, y))
+	})
+	reg("Quo", func(e *Engine, f *frame, a []Value) Value {
+		x, y := e.bigOf(a[1]), e.bigOf(a[2])
+		divZero(e, y)
+		return e.setBig(a[0], quo(e, x, y))
+	})
+	reg("Rem", func(e *Engine, f *frame, a []Value) Value {
+		x, y := e.bigOf(a[1]), e.bigOf(a[2])
+		divZero(e, y)
+		return e.setBig(a[0], e.b.IntBin(OIntSub, x, e.b.IntBin(OIntMul, y, quo(e, x, y))))
+	})
 	reg("SetInt64", func(e *Engine, f *frame, a []Value) Value { return e.setBig(a[0], e.b.Bv2IntS(e.term(a[1]))) })
 	reg("SetUint64", func(e *Engine, f *frame, a []Value) Value { return e.setBig(a[0], e.b.Bv2Nat(e.term(a[1]))) })
 	reg("IsInt64", func(e *Engine, f *frame, a []Value) Value {
